@@ -79,6 +79,32 @@ fn verifier_challenges_in_batch<G: Group>(companion: &Msg<G>, msg: &Msg<G>, n_co
     }
 }
 
+/// The challenges drawn on member `idx`'s own transcript while the whole batch is verified in `action`;
+/// None if a member is refused by a constructor or the decoder. The flag tells whether the call returned Ok.
+fn member_challenges<G: Group>(members: &[&Msg<G>], idx: usize, action: VerifyAction) -> Result<Option<(bool, Vec<Scalar>)>, Caught> {
+    let mut sts = Vec::new();
+    let mut prs = Vec::new();
+    for m in members {
+        match guarded(|| m.open())? {
+            Delivered::Ready(s_, p) => {
+                sts.push(s_);
+                prs.push(p);
+            },
+            _ => return Ok(None),
+        }
+    }
+    tap::start();
+    let mut trs: Vec<merlin::Transcript> = members.iter().map(|m| m.ctx.transcript()).collect();
+    let tid = trs[idx].tap_id();
+    let r = guarded(|| G::verify(&mut trs, &sts, &prs, action));
+    let events = tap::stop();
+    let ok = r?.is_ok();
+    match TranscriptView::from_events(&events, tid) {
+        Ok(v) => Ok(Some((ok, v.challenges))),
+        Err(_) => Ok(None),
+    }
+}
+
 fn prover_challenges<G: Group>(cfg: &Config, wit: &WitnessSpec, ctx: &Context, rng_seed: u64) -> Option<Vec<Scalar>> {
     let built = build::<G>(cfg, wit);
     let mut frng = FaultRng::new(RngMode::Healthy(rng_seed));
@@ -267,7 +293,7 @@ fn run<G: Group>(sc: &Scenario, st: &mut RunStats) -> Vec<Violation> {
     // challenges — or the batch must be refused before any challenge is drawn
     if sc.cfg.m >= 2 {
         let ccfg = Config { bits: sc.cfg.bits, m: 1, cap: 1, ext: sc.cfg.ext };
-        let cwit = WitnessSpec { values: vec![0], promises: vec![None], blind_seed: sc.fault_seed ^ 0xC04, seed_nonce: None, zero_blind: vec![], same_as_prev: vec![], special_blind: None };
+        let cwit = WitnessSpec { values: vec![0], promises: vec![None], blind_seed: sc.fault_seed ^ 0xC04, seed_nonce: None, zero_blind: vec![], same_as_prev: vec![], same_as_first: vec![], special_blind: None };
         let cctx = Context { label: 7, extra: None };
         let cb = build::<G>(&ccfg, &cwit);
         if let Ok(Ok(cp)) = prove_mode::<G>(&cctx, &cb.statement, &cb.witness, &RngMode::Healthy(sc.rng_seed ^ 2)).0 {
@@ -320,12 +346,96 @@ fn run<G: Group>(sc: &Scenario, st: &mut RunStats) -> Vec<Violation> {
             }
         }
     }
+    // position, company and mode: a member's challenges are a function of its own transcript, statement and
+    // proof only, so they are the same alone and at any position of a batch, next to seeded, unseeded and
+    // aggregated members, in every verifying mode in which they are drawn at all
+    if sc.only.is_none() || sc.only == Some(40_000) {
+        let mk = |m: usize, seeded: bool, tag: u64, label: usize| -> Option<Msg<G>> {
+            let ccfg = Config { bits: sc.cfg.bits, m, cap: m, ext: sc.cfg.ext };
+            let cwit = WitnessSpec {
+                values: vec![0; m],
+                promises: vec![None; m],
+                blind_seed: sc.fault_seed ^ tag,
+                seed_nonce: if seeded { Some((sc.fault_seed ^ tag) | 4) } else { None },
+                zero_blind: vec![],
+                same_as_prev: vec![], same_as_first: vec![],
+                special_blind: None,
+            };
+            let cctx = Context { label, extra: Some(tag.to_le_bytes().to_vec()) };
+            let cb = build::<G>(&ccfg, &cwit);
+            match prove_mode::<G>(&cctx, &cb.statement, &cb.witness, &RngMode::Healthy(sc.rng_seed ^ tag)).0 {
+                Ok(Ok(cp)) => Some(Msg::<G>::honest(&ccfg, &cwit, &cctx, &cb, &cp)),
+                _ => None,
+            }
+        };
+        let plain = mk(1, false, 0xA1, 7);
+        let seeded = mk(1, true, 0xA2, 3);
+        let aggregated = if sc.cfg.bits * 2 <= 64 { mk(2, false, 0xA3, 5) } else { None };
+        if let (Some(plain), Some(seeded)) = (plain, seeded) {
+            let mut arrangements: Vec<(Vec<&Msg<G>>, usize, &str)> = vec![
+                (vec![&plain, &msg], 1, "[unseeded, subject]"),
+                (vec![&msg, &plain], 0, "[subject, unseeded]"),
+                (vec![&seeded, &msg], 1, "[seeded, subject]"),
+                (vec![&plain, &seeded, &msg], 2, "[unseeded, seeded, subject]"),
+                (vec![&seeded, &plain, &msg, &plain], 2, "[seeded, unseeded, subject, unseeded]"),
+            ];
+            if let Some(a) = &aggregated {
+                arrangements.push((vec![a, &msg], 1, "[aggregated, subject]"));
+                arrangements.push((vec![a, &seeded, &msg], 2, "[aggregated, seeded, subject]"));
+            }
+            for action in [VerifyAction::VerifyOnly, VerifyAction::RecoverAndVerify, VerifyAction::RecoverOnly] {
+                let alone = match member_challenges(&[&msg], 0, action) {
+                    Ok(Some((true, c))) => c,
+                    Ok(_) => continue,
+                    Err(c) => {
+                        out.push(Violation::new("verifier_panicked", "panic", format!("{:?}", c)));
+                        return out;
+                    },
+                };
+                // in recover-only mode a member without a seed has nothing to recover; a verifier may or may
+                // not replay its transcript
+                let must_draw = !matches!(action, VerifyAction::RecoverOnly) || msg.seed.is_some();
+                for (members, idx, name) in arrangements.iter() {
+                    match member_challenges(members, *idx, action) {
+                        Ok(Some((true, got))) => {
+                            st.evals += 1;
+                            st.fault("verifier_batch_position_and_mode");
+                            if msg.seed.is_some() && matches!(action, VerifyAction::RecoverOnly) {
+                                st.probe("seeded_subject_behind_other_members_in_recover_only");
+                            }
+                            if (must_draw || !got.is_empty()) && got != alone {
+                                out.push(Violation::new(
+                                    "challenge_depends_on_batch_position_or_company",
+                                    format!("verifier-batch/{:?}", action),
+                                    format!(
+                                        "verifier, cfg {:?}, group {}, mode {:?}: in the batch {} the subject's own transcript yields {} challenges that differ from the {} it yields when the same triple is verified alone",
+                                        sc.cfg,
+                                        G::NAME,
+                                        action,
+                                        name,
+                                        got.len(),
+                                        alone.len()
+                                    ),
+                                ));
+                                return out;
+                            }
+                        },
+                        Ok(_) => {},
+                        Err(c) => {
+                            out.push(Violation::new("verifier_panicked", "panic", format!("{:?}", c)));
+                            return out;
+                        },
+                    }
+                }
+            }
+        }
+    }
     // beyond the chunk limit: every member's transcript must still be bound to that member
     if let (Some(k), None) = (sc.large_batch, sc.only.filter(|o| *o != 30_000)) {
         let lcfg = Config { bits: 2, m: 1, cap: 1, ext: sc.cfg.ext };
         let mut msgs: Vec<Msg<G>> = Vec::with_capacity(k);
         for i in 0..k {
-            let w = WitnessSpec { values: vec![(i % 4) as u64], promises: vec![None], blind_seed: sc.fault_seed ^ (i as u64) << 8, seed_nonce: None, zero_blind: vec![], same_as_prev: vec![], special_blind: None };
+            let w = WitnessSpec { values: vec![(i % 4) as u64], promises: vec![None], blind_seed: sc.fault_seed ^ (i as u64) << 8, seed_nonce: None, zero_blind: vec![], same_as_prev: vec![], same_as_first: vec![], special_blind: None };
             let c = Context { label: i % LABELS.len(), extra: Some((i as u32).to_le_bytes().to_vec()) };
             let b = build::<G>(&lcfg, &w);
             match prove_mode::<G>(&c, &b.statement, &b.witness, &RngMode::Healthy(sc.rng_seed ^ i as u64)).0 {
@@ -444,7 +554,7 @@ impl Check for C04 {
     }
 
     fn rule(&self) -> String {
-        "for each seeded accepted message every singly perturbable datum is faulted in turn: transcript context (label, data), H (both forms / encoding), each G_k, bit length x2 and /2, each commitment (random / +H), each promise (+1, -1, toggled; kept in range), each commitment swap, A, each L_j, each R_j, A1, B (random point / sibling element); the verifier runs with the merlin tap on for original and faulted message and the oracle requires every challenge with ordinal >= first(d) to differ (and those before to be equal: harness self-check); on the prover side context, a promise and the bit length are varied under the same RNG stream; prover and verifier sequences on the honest message must be equal; one evaluation = one tapped run compared; distinct = distinct event-log hashes; exhaustive over data positions per message, sampled over messages. Aggregation factor and extension degree cannot be perturbed alone through the public API (stated gap).".into()
+        "for each seeded accepted message every singly perturbable datum is faulted in turn: transcript context (label, data), H (both forms / encoding), each G_k, bit length x2 and /2, each commitment (random / +H), each promise (+1, -1, toggled; kept in range), each commitment swap, A, each L_j, each R_j, A1, B (random point / sibling element); the verifier runs with the merlin tap on for original and faulted message and the oracle requires every challenge with ordinal >= first(d) to differ (and those before to be equal: harness self-check); on the prover side context, a promise and the bit length are varied under the same RNG stream; prover and verifier sequences on the honest message must be equal; one evaluation = one tapped run compared; distinct = distinct event-log hashes; exhaustive over data positions per message, sampled over messages. Aggregation factor and extension degree cannot be perturbed alone through the public API (stated gap). Position, company and mode: the challenges drawn on a member's own transcript are compared alone and in seven batch arrangements (behind and before unseeded, seeded and aggregated members) in all three verifying modes.".into()
     }
 
     fn assumptions(&self) -> Vec<String> {
@@ -547,6 +657,7 @@ impl Check for C04 {
             "verifier_context_label", "verifier_context_extra", "verifier_generator_h", "verifier_generator_g", "verifier_bits",
             "verifier_replace_commitment", "verifier_promise", "verifier_swap_commitments", "verifier_replace_point", "verifier_flip_bit", "verifier_generator_encoding_bit",
             "prover_side_perturbation", "batch_refused_before_challenges", "large_batch_distinct_contexts",
+            "verifier_batch_position_and_mode", "seeded_subject_behind_other_members_in_recover_only",
         ]
     }
 }
